@@ -1290,6 +1290,11 @@ func SelectExpr(query *Query, current Map, expr *sqlparser.SelectExprs, opts ...
 						delete(data, "<-")
 						return nil
 					})
+					// (an enclosing document under an alias, FROM `<-` AS p, is handed
+					// out as it is when read by name: without lazy CTEs and marker)
+					if doc, ok := value.(Map); ok && key != "<-" {
+						value = unscoped(doc, false)
+					}
 					data[key] = value
 				}
 			}
